@@ -43,6 +43,27 @@ CHECKS.update({
             "Trusted: nothing beyond the public API (the model is not used).", "9/C18"),
 })
 
+CHECKS.update({
+    "C02": ("fault_enumeration", "crash-point enumeration over a recorded I/O trace of generated histories (proptest) + reference-model oracle + generated continuation",
+            "Every effect boundary and aimed/generated byte cuts of every write of each generated history are turned into the directory image a process crash would leave, which the real open() then recovers; the recovered state must be the completed prefix, optionally with the in-flight call (or a partially applied in-flight truncate/delete), a generated continuation + restart must behave as on a never-crashed log, and recovery's own writes are crashed again (depth 2). Exhaustive for traces <= 4000 written bytes; sampled cuts otherwise.",
+            "Trusted: process-crash model (program-order effects, atomic create/set_len/unlink), derivation of OS-level writes from BufWriter occupancy (self-checked against the real directory), reference model.", "9/C02"),
+    "C03": ("fault_enumeration", "crash-point enumeration under two loss models (process crash, power loss) over recorded I/O traces of generated (policy, history) pairs; monotone 'at least as recent' oracle",
+            "For every policy family and generated histories with explicit persist calls, each effect boundary (and byte cuts, for process crashes) is turned into the image left by a process crash (buffer lost) or by a power loss (adversarial: all unsynced bytes lost and all unlinks applied; mixed: generated prefixes), and the recovered state must be at least as recent as the last call whose return guarantees persistence under that model.",
+            "Trusted: the power-loss model (per-file fdatasync, dir fsync for names, ordered name-space durability), reference model for S_P, which calls count as persistence points.", "9/C03"),
+    "C04": ("fault_enumeration", "stateful property testing (proptest) with a model-free history invariant + crash-point enumeration with probe appends",
+            "Watermark invariant (highest position assigned or truncated-to per queue incarnation) computed from real outcomes only, checked on every call/restart of generated histories with idle emptied queues and busy GC-ing queues, and on every enumerated crash image by probing last_position, retry, past and automatic appends on every surviving queue.",
+            "Trusted: process-crash model as C02.", "9/C04"),
+    "C08": ("fault_enumeration", "generated in-place damage (aimed at frame fields + unaimed) on WAL images of generated histories; membership oracle against everything ever appended; separate decoy campaign",
+            "12 damaged images per generated history, 1..4 in-place damage operations each; a successful open may only return records that were appended. The one known way to defeat this (payload embedding a CRC-valid frame + len overwrite) is isolated in a counted decoy campaign and recorded as known finding decoy-resync.",
+            "Trusted: 'up to a CRC-32 collision'; frame layout from hook write events.", "9/C08"),
+    "C09": ("fault_enumeration", "single-frame payload/CRC damage enumerated over every frame of the WAL image of generated histories; loss oracle against the reference model",
+            "Every frame present in the final image of each generated history is damaged in turn (payload or CRC bytes only); open must succeed and every retained record not written by the damaged entry must be recovered intact.",
+            "Trusted: frame layout and frame->call ownership from hook write events; reference model for the retained set.", "9/C09"),
+    "C12": ("fault_enumeration", "crash-point enumeration + single-frame damage enumeration over generated batch-heavy histories; all-or-nothing oracle per batch",
+            "For batch-dominated generated histories (multi-frame, multi-file entries) every enumerated crash image and every single-frame-damaged image is recovered and EVERY batch of the history must be recovered entirely, not at all, or as the suffix left by a requested truncation.",
+            "Trusted: process-crash model; no queue deletion in these histories so positions identify batches.", "9/C12"),
+})
+
 NOT_YET = {
 }
 
